@@ -326,6 +326,13 @@ and withclause (s : Sexp.t) : withclause =
     | "cte" ->
         let mat = match List.tl (List.tl (List.tl l)) with [] -> None | m :: _ -> Some (atom m = "mat") in
         ctes := !ctes @ [Cte (hx (List.nth l 0), List.map hx (args (List.nth l 1)), subquery (List.nth l 2), mat)]
+    | "ctefs" ->
+        (* CommonTableExpression::from_select; None = no table name (rendering panics on the missing name) *)
+        (match cte_from_select (select (List.nth l 0)) with
+         | Some (Cte (n, cols, q, _)) ->
+             let mat = match List.tl l with [] -> None | m :: _ -> Some (atom m = "mat") in
+             ctes := !ctes @ [Cte (n, cols, q, mat)]
+         | None -> raise Exit)
     | "search" -> search := Some ((atom (List.nth l 0) = "breadth", expr (List.nth l 1)), hx (List.nth l 2))
     | "cycle" -> cycle := Some ((expr (List.nth l 0), hx (List.nth l 1)), hx (List.nth l 2))
     | _ -> failwith "with clause") (args s);
